@@ -1037,7 +1037,7 @@ impl Check for C03 {
             // a long-lived connection: more than 2^32 bytes received in total with an
             // acknowledgement window of 1 GiB in force (counters that wrap, differences that go
             // negative); the acknowledgements themselves are judged by C17's monitor
-            super::c17::volume_run_w(k == 2, 1 << 30, (1u64 << 32) + (300 << 20), out);
+            super::c17::volume_run_opt(k == 2, 1 << 30, (1u64 << 32) + (300 << 20), false, out);
             out.count("calls_monitored", 280);
             return;
         }
